@@ -5,7 +5,7 @@ import stix2
 from stix2 import properties as P
 from stix2.exceptions import STIXError
 
-from engine.hlib import K, Native, Part, TIER, V, pick
+from engine.hlib import K, Native, Part, TIER, V, pick, pickb
 from props import gen, specmodel
 
 PARTNO = Part.index
@@ -320,3 +320,84 @@ def run_embedded_case(i):
         return (ver, ename, "base")
     r = _vary(ver, _MODEL[ver]["extensions"][ename]["props"], ecls, inner, rebuild)
     return True if r is True else (ver, ename) + r
+
+
+# ---- granular markings: every path of documents with long lists and sibling keys that extend one another
+def _paths(j, prefix=""):
+    out = []
+    if isinstance(j, dict):
+        for k, v in j.items():
+            p = prefix + "." + k if prefix else k
+            out.append(p)
+            out.extend(_paths(v, p))
+    elif isinstance(j, list):
+        for i, v in enumerate(j):
+            p = "%s.[%d]" % (prefix, i)
+            out.append(p)
+            out.extend(_paths(v, p))
+    return out
+
+
+def _deep_docs():
+    UU = gen.UU
+    common21 = {"spec_version": "2.1", "created": "2020-01-01T00:00:00.000Z", "modified": "2020-01-01T00:00:00.000Z"}
+    mal = dict(common21, type="malware", id="malware--" + UU, name="", is_family=False, labels=["l%d" % i for i in range(12)],
+               external_references=[{"source_name": "s%d" % i, "external_id": str(i), "hashes": {"MD5": "0" * 32}} for i in range(11)],
+               kill_chain_phases=[{"kill_chain_name": "k", "phase_name": "p"}] * 2)
+    rep = dict(common21, type="report", id="report--" + UU, name="r", published="2020-01-01T00:00:00Z",
+               object_refs=["indicator--%s" % UU] + ["malware--%s" % UU] * 11)
+    nt = {"type": "network-traffic", "spec_version": "2.1", "id": "network-traffic--" + UU, "protocols": ["tcp", "http"], "src_ref": "ipv4-addr--" + UU,
+          "is_active": False, "end": "2020-01-01T00:00:00Z", "src_port": 0,
+          "extensions": {"http-request-ext": {"request_method": "get", "request_value": "/", "request_header": {"Accept": ["a", "b"], "Accept-Encoding": ["g"],
+                                                                                                                  "Accept-": ["x"], "A": ["y"]}}}}
+    em = {"type": "email-message", "spec_version": "2.1", "id": "email-message--" + UU, "is_multipart": False, "subject": "",
+          "received_lines": ["r%d" % i for i in range(12)], "additional_header_fields": {"X": ["a"], "X-Y": ["b"], "X-Y-Z": ["c", "d"]}}
+    f = {"type": "file", "spec_version": "2.1", "id": "file--" + UU, "name": "f", "size": 0,
+         "extensions": {"ntfs-ext": {"sid": "s", "alternate_data_streams": [{"name": "a%d" % i, "size": 0} for i in range(11)]},
+                        "windows-pebinary-ext": {"pe_type": "exe", "sections": [{"name": "s%d" % i, "entropy": 0.0} for i in range(11)]}}}
+    od20 = {"type": "observed-data", "id": "observed-data--" + UU, "created": "2020-01-01T00:00:00.000Z", "modified": "2020-01-01T00:00:00.000Z",
+            "first_observed": "2020-01-01T00:00:00Z", "last_observed": "2020-01-01T00:00:00Z", "number_observed": 1,
+            "objects": {"0": {"type": "email-message", "is_multipart": False, "received_lines": ["r%d" % i for i in range(11)]},
+                        "1": {"type": "file", "name": "", "size": 0}, "10": {"type": "mutex", "name": "m"}}}
+    ind20 = {"type": "indicator", "id": "indicator--" + UU, "created": "2020-01-01T00:00:00.000Z", "modified": "2020-01-01T00:00:00.000Z",
+             "pattern": "[a:b = 1]", "valid_from": "2020-01-01T00:00:00Z", "labels": ["x"] * 11, "revoked": False}
+    return [("2.1", mal), ("2.1", rep), ("2.1", nt), ("2.1", em), ("2.1", f), ("2.0", od20), ("2.0", ind20)]
+
+
+DEEP = [(ver, doc, _paths(doc)) for ver, doc in _deep_docs()]
+NDEEP = len(DEEP)
+MAXDEEP = max(len(p) for _, _, p in DEEP)
+
+
+def deep_selectors(di: int, si: int, lang: bool) -> bool:
+    """
+    pre: 0 <= di < NDEEP and 0 <= si < MAXDEEP
+    post: _
+    """
+    di = pick(di, NDEEP)
+    if si >= len(DEEP[di][2]):
+        return True
+    si, lang = pick(si, len(DEEP[di][2])), pickb(lang)
+    with Native():
+        ok = run_deep_case(di, si, lang)
+    V.reached()
+    return ok
+
+
+def run_deep_case(di, si, lang):
+    ver, doc, paths = DEEP[di]
+    if lang and ver == "2.0":
+        return True
+    sel = paths[si]
+    gm = {"lang": "fr", "selectors": [sel]} if lang else {"marking_ref": M1, "selectors": [sel]}
+    d = dict(doc, granular_markings=[gm])
+    if not accepted_and_preserved(d, ver, "objects"):
+        return False
+    b = {"type": "bundle", "id": "bundle--" + gen.UU, "objects": [d]}
+    if ver == "2.0":
+        b["spec_version"] = "2.0"
+    try:
+        o = stix2.parse(b, allow_custom=False)
+    except (STIXError, ValueError, TypeError):
+        return False
+    return preserved(b, json.loads(o.serialize(include_optional_defaults=True)))
